@@ -358,6 +358,19 @@ def obligations(ctx, pid):
     if not lb:
         obs.append(Ob("E0.late-binding", "E0.late-binding", f"{len(specified)} specified functions", "ok",
                       "no closure or lazy iterator captures an iteration variable beyond its iteration"))
+    # ---- a lazy iterator where a sized / truth-valued sequence is needed (the IR treats map(...) like list(map(...)))
+    lz = []
+    for q in sorted(specified | {f.qualname for f in P.functions.values() if f.qualname not in spec_all and f.module.name in {P.functions[x].module.name for x in specified if x in P.functions}}):
+        fi = P.functions.get(q)
+        if fi is not None:
+            lz += [(fi, n, what) for n, what in lazy_misuse(fi.node)]
+    for fi, n, what in lz:
+        obs.append(Ob(f"E0.lazy:{fi.qualname}:{what}", "E0.lazy-iterator", f"{fi.file}:{n.lineno} {fi.qualname}", "violation",
+                      f"{what}: an iterator object is always true and has no len(); the analysed terms treat it like the list of "
+                      f"its elements, so this use is not what they describe", key=f"E0.lazy:{fi.qualname}:{what}"))
+    if not lz:
+        obs.append(Ob("E0.lazy-iterator", "E0.lazy-iterator", f"{len(specified)} specified functions and the helpers of their modules", "ok",
+                      "no lazy iterator (map / filter / zip / generator / itertools.*) is used as a truth value or passed to len()"))
     # ---- constants used as axioms
     pm = P.modules.get("puan")
     if pm is not None:
@@ -405,6 +418,54 @@ def _free_names(node):
         if isinstance(n, ast.Lambda) and n is not node:
             bound |= {x.arg for x in n.args.args}
     return names - bound
+
+
+LAZY_CALLS = {"map", "filter", "zip", "enumerate", "reversed", "iter"}
+
+
+def _is_lazy(node, lazy_names):
+    if isinstance(node, ast.GeneratorExp):
+        return True
+    if isinstance(node, ast.Name) and node.id in lazy_names:
+        return True
+    if isinstance(node, ast.Call):
+        d = dotted(node.func) or ""
+        return d in LAZY_CALLS or d.startswith("itertools.")
+    return False
+
+
+def lazy_misuse(fn):
+    """[(node, description)]: a lazy iterator used as a truth value (if / while / not / and / or / conditional expression / bool())
+    or passed to len()"""
+    # local names bound exactly once, to a lazy expression
+    binds = {}
+    for n in ast.walk(fn):
+        if isinstance(n, ast.Assign) and len(n.targets) == 1 and isinstance(n.targets[0], ast.Name):
+            binds.setdefault(n.targets[0].id, []).append(n.value)
+        elif isinstance(n, (ast.AugAssign, ast.AnnAssign)) and isinstance(n.target, ast.Name):
+            binds.setdefault(n.target.id, []).append(getattr(n, "value", None))
+        elif isinstance(n, (ast.For, ast.comprehension)):
+            for t in ast.walk(n.target):
+                if isinstance(t, ast.Name):
+                    binds.setdefault(t.id, []).append(None)
+    lazy_names = {k for k, v in binds.items() if len(v) == 1 and v[0] is not None and _is_lazy(v[0], set())}
+    out = []
+
+    def truth(e, where):
+        if _is_lazy(e, lazy_names):
+            out.append((e, f"`{ast.unparse(e)[:50]}` used as a truth value in {where}"))
+    for n in ast.walk(fn):
+        if isinstance(n, (ast.If, ast.While, ast.IfExp)):
+            truth(n.test, type(n).__name__.lower())
+        elif isinstance(n, ast.UnaryOp) and isinstance(n.op, ast.Not):
+            truth(n.operand, "not")
+        elif isinstance(n, ast.BoolOp):
+            for v in n.values[:-1]:
+                truth(v, "and/or")
+        elif isinstance(n, ast.Call) and isinstance(n.func, ast.Name) and n.func.id in ("len", "bool") and len(n.args) == 1 \
+                and _is_lazy(n.args[0], lazy_names):
+            out.append((n, f"`{ast.unparse(n)[:50]}`"))
+    return out
 
 
 def late_binding(fn):
